@@ -1,7 +1,10 @@
 import SciVerif.Tie.Task
 import SciVerif.Props.C01
+import SciVerif.Tie.Pins
 /-! Tie A obligations for C01 on the current source. -/
 namespace SciVerif.Tie
+-- functions the model relies on without an obligation of its own naming them (pinned by bin/mkpins):
+-- PIN-ALSO: Scipipe.FileIP_TempPath Scipipe.Task_createDirs Scipipe.Task_ensureAllOutputsExist
 open SciVerif.TaskFS
 
 
@@ -14,6 +17,24 @@ theorem c01_on_source (c : Cfg) (pre : Nat → Option File) (n p : Nat) (f : Fil
     f.complete = true ∧ c.beh.exit = .ok ∧ 0 < (stepN taskSem c n (init taskSem c pre)).okRuns :=
   c01_final_is_complete taskSem generated_wf_c01 c pre n p f h hfresh
 
+
+-- BEGIN PINS (written by bin/mkpins; do not edit by hand)
+/-- the Go functions this property's model and obligations were written against have exactly the
+pinned skeletons (SHA-256 prefix of the atom list) -/
+theorem pinned_skeletons_c01 :
+    pinsOk
+    [("Scipipe.FileIP_TempPath", "7eba22a35232a5cb"),
+     ("Scipipe.FinalizePaths", "291fc0cefa37cea9"),
+     ("Scipipe.Task_Execute", "40fd1fec0c69deb2"),
+     ("Scipipe.Task_anyOutputsExist", "0609a842b7aaf7a8"),
+     ("Scipipe.Task_createDirs", "bac0633be6d72f5b"),
+     ("Scipipe.Task_ensureAllOutputsExist", "02a49c3c493368f3"),
+     ("Scipipe.Task_executeCommand", "98e77d849c0638cb"),
+     ("Scipipe.Task_finalizePaths", "9cd0530d4e86fa92"),
+     ("Scipipe.Task_formatCommand", "ccbe98735ce5c7d6")] = true := by decide
+-- END PINS
+
 end SciVerif.Tie
+#print axioms SciVerif.Tie.pinned_skeletons_c01
 #print axioms SciVerif.Tie.generated_wf_c01
 #print axioms SciVerif.Tie.c01_on_source
